@@ -47,6 +47,11 @@ import (
 // shutdown must finalize the pipeline, not race the shutdown with a restart.
 var errGracefulShutdownDuringRecovery = cerrors.New("graceful shutdown during recovery backoff")
 
+// errUserStopDuringRecovery is the matching sentinel for a user Stop that
+// arrived while the pipeline was parked in the recovery backoff wait: the
+// cleanup goroutine maps it to StatusUserStopped instead of restarting.
+var errUserStopDuringRecovery = cerrors.New("user stop during recovery backoff")
+
 type FailureEvent struct {
 	// ID is the ID of the pipeline which failed.
 	ID    string
@@ -171,6 +176,16 @@ type runnablePipeline struct {
 	// stops for an unrelated reason gets ordinary recovery semantics again, not
 	// a stale "this was user-stopped" marker from a previous run.
 	intentionalStop atomic.Bool
+
+	// recoveryStop is closed (once) by a graceful Stop that finds this run
+	// already ended and waiting in the recovery backoff (status Recovering).
+	// The run's workers are gone, so there is nothing to stop any more, but
+	// the pending automatic restart must not happen: StartWithBackoff ends
+	// its wait and the cleanup goroutine records the pipeline as user
+	// stopped. Without it such a Stop returned nil and the pipeline was
+	// restarted a moment later anyway.
+	recoveryStop     chan struct{}
+	recoveryStopOnce sync.Once
 }
 
 // ConnectorService can fetch and create a connector instance, and report when
@@ -294,6 +309,12 @@ func (s *Service) Stop(ctx context.Context, pipelineID string, force bool) error
 
 	if rp.pipeline.GetStatus() != pipeline.StatusRunning && rp.pipeline.GetStatus() != pipeline.StatusRecovering {
 		return cerrors.Errorf("can't stop pipeline with status %q: %w", rp.pipeline.GetStatus(), pipeline.ErrPipelineNotRunning)
+	}
+
+	if !force && rp.pipeline.GetStatus() == pipeline.StatusRecovering && rp.recoveryStop != nil {
+		// The run has already ended and is waiting to be restarted by error
+		// recovery: cancel that restart (see runnablePipeline.recoveryStop).
+		rp.recoveryStopOnce.Do(func() { close(rp.recoveryStop) })
 	}
 
 	return s.stopRunnablePipeline(ctx, rp, force)
@@ -936,10 +957,11 @@ func (s *Service) buildRunnablePipeline(
 	}
 
 	return &runnablePipeline{
-		pipeline:  pl,
-		workers:   workers,
-		sourceIDs: sourceIDs,
-		sink:      sink,
+		pipeline:     pl,
+		workers:      workers,
+		sourceIDs:    sourceIDs,
+		sink:         sink,
+		recoveryStop: make(chan struct{}),
 		// Seed a fresh backoff and attempt counter. Start carries these onto the
 		// next runnablePipeline across a recovery restart. Mirrors
 		// pkg/lifecycle.buildRunnablePipeline; the backoff parameters come from
@@ -1619,6 +1641,14 @@ func (s *Service) runPipeline(rp *runnablePipeline) error {
 					// backoff wait: the old entry must stay in runningPipelines
 					// until Start swaps in the new one.
 					return nil
+				case cerrors.Is(recoveryErr, errUserStopDuringRecovery):
+					// The user stopped the pipeline while it was waiting to be
+					// restarted. Finalize as a user stop and run the cleanup
+					// tail so the entry is removed.
+					err = nil
+					if updateErr := s.pipelines.UpdateStatus(ctx, rp.pipeline.ID, pipeline.StatusUserStopped, ""); updateErr != nil {
+						return updateErr
+					}
 				case cerrors.Is(recoveryErr, errGracefulShutdownDuringRecovery):
 					// A graceful shutdown began while we were parked in the
 					// backoff wait. Finalize as a system stop, not a degraded
@@ -1790,6 +1820,8 @@ func (s *Service) StartWithBackoff(ctx context.Context, rp *runnablePipeline) er
 	select {
 	case <-ctx.Done():
 		return ctx.Err()
+	case <-rp.recoveryStop:
+		return errUserStopDuringRecovery
 	case <-time.After(duration):
 	}
 
@@ -1806,6 +1838,12 @@ func (s *Service) StartWithBackoff(ctx context.Context, rp *runnablePipeline) er
 	// concurrent restart still wins.
 	if s.isGracefulShutdown.Load() {
 		return errGracefulShutdownDuringRecovery
+	}
+
+	select {
+	case <-rp.recoveryStop:
+		return errUserStopDuringRecovery
+	default:
 	}
 
 	return s.Start(ctx, rp.pipeline.ID)
